@@ -82,6 +82,11 @@ NEEDS = {
     "floyd-skips-direct-routes": "Floyd zone with a declared one-hop route of 3+ links and a shorter chain of routes",
     "torus-odd-dimension-wrap-tie": "torus dimension of odd size, source above d/2 and target exactly (src + d/2) % d",
     "star-dedup-adjacent-only": "star zone where a link is repeated non-adjacently (limiter link on a self route, two shared centre links)",
+    "suspend-skips-lazy-update-when-current": "lazy model, action last updated at the very date of the suspend (get_remaining or a solve), suspension > 0 s",
+    "disk-write-bandwidth-updates-read-constraint": "write bandwidth of a sealed disk changed at run time, then I/O on that disk",
+    "raw-model-caches-tcp-gamma": "network/model:raw (or a run-time change of network/TCP-gamma) and bandwidth*2*latency above the window",
+    "ptask-cpu-bound-breaks-at-zero-flops": "parallel task listing a 0-flop part before the dominant part, the latter on a multicore host",
+    "hindexed-serialize-stops-at-empty-block": "indexed type with a zero-length block followed by a non-empty one, on the send side (re-based on the repaired serialize)",
     "sem-capacity-clamped":"semaphore with no token left and at least one queued actor when a lock/unlock is reported",
 }
 STATION = {  # name -> how the pinned tests were run with the change
